@@ -892,8 +892,11 @@ func runV1(w *run.W, a *v1Args) {
 			class := "other"
 			_, amb := m.Lookup(name, true, true)
 			if _, amb2 := mq.Lookup(name, true, true); (amb || amb2) && cok && vok && ch != "" && vh != "" && !strings.Contains(ch+vh, ",") {
-				class = "fold-candidate-order"
+				// v1 versus classic is property C09's subject, not C15's: C15 only promises the documented v2 rules
+				// (under v1's legacy error semantics an ambiguous folded match is documented to pick a field silently).
+				// Observed and counted here, reported by the C09 monitor (finding F20).
 				w.Count("v1_fold_order_divergences", 1)
+				continue
 			}
 			w.Violate("v1-classic-differs", map[string]string{"side": "unmarshal", "class": class}, "type %s: name %q is stored into %q by classic encoding/json (ok=%v) and into %q by v1 (ok=%v)", a.Type, name, ch, cok, vh, vok)
 		}
